@@ -95,6 +95,18 @@ RULE = ('cases = (record, dt) pairs driven through the public eqsig.im functions
         '/ np.float64 / np.float32 / int, through EVERY measure (positionally, by keyword, generate_cumulative_stats, '
         'eqsig.Signal for the acceleration-based ones) with the sign / scale / zero-pad relations, and reached on a warm '
         'object (longer record -> reset_values(short); short -> longer -> short); bool records also in the quadrature part. '
+        'Round 5: the step in further scalar forms - np.int64 / 0-d int64 array (1, 2, 5), True / np.True_ / 0-d bool array '
+        '(the step 1), 0-d float64 / float32 arrays (any step) - in the quadrature, short-record and CAVdp parts (CAVdp: the same '
+        'step value as np.float64 / 0-d float64, as (0-d) float32 when it is a float32 number, as int / np.int64 / bool forms '
+        'when it is 1; half of all dt = 1 cases), and in ~12-15% of the histories, assignments, twins and back-to-back cases; the '
+        'caller\'s own 0-d step array is snapshotted at every monitored call like the record. True flag forms of '
+        'generate_displacement_and_velocity_series(trap=...) inside histories: True / np.True_ / 0-d bool array / 1 / '
+        'np.int64(1). bool records (on/off pulse trains) also in the CAVdp part, in `sig.values = ...`, reset_values and '
+        'add_series. Settings outside the band of the data given through the attribute names (response_times [0], [0, dt, 1], '
+        '[dt/2], whole numbers; smoothing frequencies above Nyquist, 1e-9, a single one; list / tuple / array), then every '
+        'measure on the cold / warm object. Back to back: after f(A); f(B); f(A) all three result arrays are overwritten in '
+        'place and the call is repeated on the same and on a new object. A few CAVdp cases with an np.float16 step (observed '
+        'as pending-finding when the tree raises on it). '
         'distinct = digest(values, dt, part); non-trivial = record with a non-zero sample.')
 ASSUMPTIONS = ['NaN-free real records, n >= 1, dt > 0; complex-typed records (raw fas2signal output) are counted, never judged',
                'a record is the sequence of real numbers its container holds: integer containers of any width are '
@@ -127,6 +139,15 @@ ASSUMPTIONS = ['NaN-free real records, n >= 1, dt > 0; complex-typed records (ra
                'implementation passes; silent records must give all-zero series (0 <= tolerance 0 + subnormal floor)',
                'copy / pickle failures, and what the copied object\'s non-C09 observables (peaks, spectra) show, are not '
                'judged here; non-finite records are counted, never judged',
+               'a step is the number float(dt) of whatever scalar form the constructor was handed (Python / numpy float, int, '
+               'bool, 0-d array): True is the step 1; the object must keep the form it was given (0-d array: same dtype), and a '
+               'measure must leave a 0-d step array - the object\'s and the caller\'s own - bit-for-bit unchanged (judged by '
+               'the purity clause); np.float16 / np.longdouble steps are outside the forms judged (float16 with CAVdp is driven '
+               'and counted only)',
+               'every true value of the trap flag of generate_displacement_and_velocity_series (True, np.True_, 0-d True, 1) '
+               'asks for the trapezoid velocity the velocity-based measures are defined on',
+               'a result array belongs to the caller: after it has been overwritten the same call returns bit-for-bit what it '
+               'returned the first time (same object or a new one of the same record and step)',
                'oracle vf/oracles/quadrature.py is correct (scalar trapezoid / rectangle sums, fsum)']
 RTOL = 1e-10
 EPS32 = float(np.finfo(np.float32).eps)
@@ -159,9 +180,10 @@ THIRD = 'state.f(A);f(B);f(A)-third==first'
 FRESH = 'history.series==fresh-object(values,dt)'
 PROTO = 'purity.copy/deepcopy/pickle-independent'
 SHORT = 'short-record(n<=2).series==defining-quadrature'
+OVERWRITE = 'ownership.results-overwritten-then-same-call==first'
 
 
-def _mins(f, cd, rel, pad, pur, twin, state, derived, ctor, fresh, proto, third, short):
+def _mins(f, cd, rel, pad, pur, twin, state, derived, ctor, fresh, proto, third, short, over):
     m = {}
     for k in ('arias', 'cav', 'isv', 'abs_acc', 'abs_vel', 'cad', 'uke'):
         m[FINAL_CLAUSE[k]] = f
@@ -172,13 +194,13 @@ def _mins(f, cd, rel, pad, pur, twin, state, derived, ctor, fresh, proto, third,
               'cavdp.gate-decided-exactly': int(cd * 0.06),
               'relation.sign': rel, 'relation.scale.pow2': rel, 'relation.scale.random': rel, 'relation.zero-pad': pad,
               PURITY: pur, OWNS: pur, TWIN: twin, STATE: state, DERIVED: derived, DT_KEPT: ctor,
-              FRESH: fresh, PROTO: proto, THIRD: third, SHORT: short})
+              FRESH: fresh, PROTO: proto, THIRD: third, SHORT: short, OVERWRITE: over})
     return m
 
 
 # about 50% of what a normal run reaches
-MIN_EVALS = {'quick': _mins(5500, 1600, 8000, 1500, 45000, 120, 900, 150, 8000, 19000, 160, 900, 16000),
-             'thorough': _mins(110000, 27000, 160000, 30000, 900000, 2400, 18000, 3000, 160000, 380000, 3300, 18000, 260000)}
+MIN_EVALS = {'quick': _mins(5500, 1600, 8000, 1500, 45000, 120, 900, 150, 8000, 19000, 160, 900, 16000, 1800),
+             'thorough': _mins(110000, 27000, 160000, 30000, 900000, 2400, 18000, 3000, 160000, 380000, 3300, 18000, 260000, 36000)}
 
 
 def _sig(args, kwargs):
@@ -426,6 +448,7 @@ def _same(a, b):
 
 
 GIVEN_DT = weakref.WeakKeyDictionary()      # signal object -> the dt its constructor was given (the caller's step)
+GIVEN_DT_ARRAY = weakref.WeakKeyDictionary()    # signal object -> the caller's own 0-d step array (mutable: `dt /= 2` reaches it)
 
 
 def _post_init(args, kwargs, result, pre):
@@ -441,10 +464,14 @@ def _post_init(args, kwargs, result, pre):
         return
     try:
         GIVEN_DT[self] = g
+        if isinstance(given, np.ndarray):
+            GIVEN_DT_ARRAY[self] = given
     except TypeError:
         pass
     try:
         kept = float(self.dt).hex() == g.hex() and type(self.dt) is type(given)
+        if isinstance(given, np.ndarray):
+            kept = kept and self.dt.dtype == given.dtype and self.dt.shape == given.shape
     except Exception:
         kept = False
     if kept:
@@ -467,8 +494,13 @@ def _pre(args, kwargs):
     """Snapshot of the object at call entry: the post-condition is judged against what the function was given,
     whatever the call (or an earlier one) did to the object; the purity clause compares the whole instance state."""
     asig = _sig(args, kwargs)
+    try:
+        given = GIVEN_DT_ARRAY.get(asig)
+    except TypeError:
+        given = None
     return {'obj': asig, 'acc': np.array(asig.values, copy=True), 'dt': _caller_dt(asig),
-            'state': {k: _snap_value(v) for k, v in vars(asig).items()}}
+            'state': {k: _snap_value(v) for k, v in vars(asig).items()},
+            'dt_array': None if given is None else (given, np.array(given, copy=True))}
 
 
 def check_purity(ctx, key, snap, result):
@@ -483,6 +515,8 @@ def check_purity(ctx, key, snap, result):
             changed.append(k)
     if not _bytes_equal(asig.values, snap['acc']):
         changed.append('values')
+    if snap.get('dt_array') is not None and not _bytes_equal(*snap['dt_array']):
+        changed.append("the caller's own 0-d step array (%r -> %r)" % (snap['dt_array'][1], snap['dt_array'][0]))
     if not changed:
         ctx.ok(PURITY)
     else:
@@ -527,11 +561,57 @@ METHODS = ('remove_average', 'remove_poly', 'rebase_displacement', 'set_zero_res
            'set_zero_residual_displacement', 'generate_displacement_and_velocity_series')
 
 
+DT_FORMS = {'float': float, 'np.float64': np.float64, 'np.float32': np.float32, 'np.float16': np.float16, 'int': int,
+            'np.int64': np.int64, 'np.bool_': np.bool_, 'bool': bool,
+            '0d-f64': lambda v: np.array(float(v)), '0d-f32': lambda v: np.array(float(v), dtype=np.float32),
+            '0d-i64': lambda v: np.array(int(v)), '0d-bool': lambda v: np.array(bool(v))}
+INT_LIKE_FORMS = ('int', 'np.int64', '0d-i64')          # whole-number steps
+BOOL_FORMS = ('np.bool_', 'bool', '0d-bool')            # only the step 1 (True)
+ANY_VALUE_FORMS = ('np.float64', '0d-f64')              # hold every double
+F32_FORMS = ('np.float32', '0d-f32')
+
+
 def _mk_dt(dt, kind):
-    return {'float': float, 'np.float64': np.float64, 'np.float32': np.float32, 'int': int}.get(kind, float)(dt)
+    return DT_FORMS.get(kind, float)(dt)
+
+
+def same_value_form(rng, dt):
+    """The step dt (a Python float) in another scalar form that holds EXACTLY the same number: np.float64 / 0-d float64
+    array always; np.float32 / 0-d float32 array when dt is a float32 number; int / np.int64 / 0-d int64 array when it is
+    whole; True / np.True_ / 0-d bool array when it is 1."""
+    d = float(dt)
+    forms = list(ANY_VALUE_FORMS)
+    if float(np.float32(d)) == d:
+        forms += list(F32_FORMS)
+    if d == int(d) and 1 <= d < 2 ** 31:
+        forms += list(INT_LIKE_FORMS) * 2
+    if d == 1.0:
+        forms += list(BOOL_FORMS) * 2
+    return _mk_dt(d, forms[int(rng.integers(len(forms)))])
+
+
+def new_scalar_form(rng, dt):
+    """A step in one of the scalar forms added in round 5 (value changed where the form needs it: whole steps 1, 2, 5 for
+    the integer forms, 1 for the boolean ones, the float32 neighbour for the 0-d float32 array)."""
+    kind = ['np.int64', '0d-i64', 'np.bool_', 'bool', '0d-bool', '0d-f64', '0d-f64', '0d-f32'][int(rng.integers(8))]
+    if kind in INT_LIKE_FORMS:
+        return _mk_dt(int(rng.choice([1, 2, 5])), kind)
+    if kind in BOOL_FORMS:
+        return _mk_dt(1, kind)
+    return _mk_dt(float(dt), kind)
 
 
 def _dt_kind(dt):
+    if isinstance(dt, np.ndarray):
+        return {'f': '0d-f32' if dt.dtype == np.float32 else '0d-f64', 'b': '0d-bool'}.get(dt.dtype.kind, '0d-i64')
+    if isinstance(dt, np.bool_):
+        return 'np.bool_'
+    if isinstance(dt, bool):
+        return 'bool'
+    if isinstance(dt, np.float16):
+        return 'np.float16'
+    if isinstance(dt, np.integer):
+        return 'np.int64'
     if isinstance(dt, np.float32):
         return 'np.float32'
     if isinstance(dt, np.float64):
@@ -546,7 +626,7 @@ def _twin_dt(asig):
     g = _caller_dt(asig)
     try:
         if float(asig.dt).hex() == float(g).hex():
-            return asig.dt
+            return np.array(asig.dt, copy=True) if isinstance(asig.dt, np.ndarray) else asig.dt
     except Exception:
         pass
     return g
@@ -599,6 +679,9 @@ def _fresh_compare(ctx, eqsig, asig, key, acc0, dt_obj, series):
 
 
 VALUE_FORMS = ('array', 'list', 'tuple', 'f32', 'view', 'readonly')
+FLAG_FORMS = {'True': lambda: True, 'np.True_': lambda: np.True_, '0d-bool': lambda: np.array(True), '1': lambda: 1,
+              'np.int64(1)': lambda: np.int64(1)}
+FLAG_KINDS = sorted(FLAG_FORMS)
 
 
 def _as_form(y, form):
@@ -692,6 +775,10 @@ def _apply(ctx, eqsig, asig, op, out, exact=False):
         elif kind == 'method' and op[1] in METHODS:
             label = op[1]
             getattr(asig, op[1])(*op[2])
+        elif kind == 'regen_velocity':
+            # generate_displacement_and_velocity_series(trap=<true in some form>): every true flag asks for the trapezoid rule
+            label = 'regen_velocity(trap=%s)' % op[1]
+            asig.generate_displacement_and_velocity_series(trap=FLAG_FORMS[op[1]]())
         elif kind == 'assign_values':
             label = 'assign_values.' + op[1]
             before = np.array(asig.values, copy=True)
@@ -729,6 +816,10 @@ def _apply(ctx, eqsig, asig, op, out, exact=False):
             ctx.observe('complex-typed record (not judged)')
         elif kind == 'call' and not _record_in_domain(asig.values):
             ctx.observe('out-of-domain-call-raised(empty/NaN/not 1-d)')
+        elif kind == 'call' and op[1] == 'cavdp' and isinstance(asig.dt, np.float16) and isinstance(e, (ValueError, OverflowError)) \
+                and ('NaN' in str(e) or 'infinity' in str(e)):
+            # round(1 / np.float16(0.5), 6) forms 2e6 in half precision -> inf -> nan: ruled outside the quantifier (a half-precision step is no time step of the statement; float16 stays probe-only as in C08)
+            ctx.observe('ruled outside the quantifier: half-precision (float16) time step, calc_cav_dp raises')
         elif kind == 'call' and op[1] == 'cavdp' and not cavdp_in_quantifier(np.real(np.asarray(asig.values)).astype(float), _caller_dt(asig))[0]:
             ctx.observe('cavdp.out-of-quantifier-call-raised')      # e.g. after a shorter reset: under 2 s
         elif kind == 'call':
@@ -841,6 +932,25 @@ def back_to_back(ctx, eqsig, x1, x2, dt, keys, kw=False, third='same'):
                       lambda: {'fn': 'back2back', 'acc': np.array(x1), 'dt': float(dt), 'scenario': _scen(), 'measure': key},
                       '%s: f(A); f(B); f(A) - the third result differs from the first (A n=%d, B n=%d, third on %s object)'
                       % (FN[key], len(x1), len(x2), 'the same' if third == 'same' else 'a new'))
+            # a result belongs to the caller: every array handed out so far is overwritten (the user scales a series in
+            # place, reuses it as a work buffer); the same call on the same object and on a new object built from the same
+            # record must still return the first value
+            locked = 0
+            for r in (r1, r2, r3):
+                try:
+                    np.asarray(r)[...] = -7.5
+                except ValueError:
+                    locked += 1
+            if locked:
+                ctx.observe('result-array-read-only(not overwritten)')
+            for where, s4 in (('the same', s1), ('a new', eqsig.AccSignal(np.array(x1, copy=True), dt))):
+                r4 = _apply(ctx, eqsig, s4, op, {})
+                if r4 is None:
+                    continue
+                ctx.check(_bytes_equal(np.asarray(r4), c1), OVERWRITE,
+                          lambda: {'fn': 'back2back', 'acc': np.array(x1), 'dt': float(dt), 'scenario': _scen(), 'measure': key},
+                          '%s: after every earlier result array was overwritten in place by the caller, the same call on %s '
+                          'object differs from the first result (n=%d)' % (FN[key], where, len(x1)))
     finally:
         SCEN['cur'] = None
 
@@ -1377,7 +1487,7 @@ def _other_record(rng, length, amp):
     return np.asarray(y, dtype=float) * (amp / max(float(np.max(np.abs(y))), 1e-300))
 
 
-ASSIGN_CONTAINERS = ['f64', 'list', 'tuple', 'i16', 'i32', 'f32', 'list-int', 'view', 'readonly', 'mixed']
+ASSIGN_CONTAINERS = ['f64', 'list', 'tuple', 'i16', 'i32', 'f32', 'list-int', 'view', 'readonly', 'mixed', 'bool', 'list-bool']
 ASSIGN_EXPRS = ['given-same', 'given-shorter', 'given-longer', 'given-few', 'pad', 'prepad', 'scale', 'neg', 'head', 'tail',
                 'every-other', 'self']
 
@@ -1423,6 +1533,13 @@ def attr_op(rng, dt):
         new = [dt * 2, dt / 2, dt, 0.01, 0.02, 0.005, np.float64(dt * 2), np.float32(dt)][int(rng.integers(8))]
         return ['set_attr', 'dt', new]
     few = [float(v) for v in np.sort(rng.uniform(0.2, 4.0, size=int(rng.integers(1, 4))))]
+    d = float(dt)
+    if u < 0.6 and rng.random() < 0.5:
+        # settings outside the band of the data: only T = 0, periods at / below 2 dt, one entry, whole numbers
+        few = [[0.0], [0.0, d, 1.0], [0.5 * d], [d, 2 * d, 3 * d], [0, 1, 2], [1e-6, 1e3]][int(rng.integers(6))]
+    elif 0.6 <= u < 0.75 and rng.random() < 0.5:
+        # smoothing frequencies above the Nyquist frequency / below the first Fourier frequency / a single one
+        few = [[0.6 / d, 2.0 / d], [0.5 / d], [1e-9, 1.0], [1.0 / d], [1, 2, 400000]][int(rng.integers(5))]
     few = [few, tuple(few), np.array(few)][int(rng.integers(3))]
     if u < 0.6:
         return ['set_attr', 'response_times', few]
@@ -1441,7 +1558,8 @@ def raising_ops(rng, n, dt, amp, pool=QUAD_KEYS):
         return [['reset_values', [[0.1 * amp, 0.2 * amp], [0.3 * amp]]]]                     # ragged: np.array raises
     if u < 0.36:
         length = [n, n + 1, max(1, n - 1), 2 * n][int(rng.integers(4))]                      # same length: accepted
-        return [['add_series', _other_record(rng, length, amp)]]
+        y = _other_record(rng, length, amp)
+        return [['add_series', (y > 0) if rng.random() < 0.15 else y]]                        # bool series: adds 1.0 where set
     if u < 0.56:
         v = rng.random()
         if v < 0.2:
@@ -1489,13 +1607,17 @@ def history_case(rng):
             ops.append(['add_constant', float(rng.uniform(-0.3, 0.3) * amp)])
         elif u < 0.36:
             length = [n, n, max(2, n // 2), n + 17][int(rng.integers(4))]
-            ops.append(['reset_values', other(length)])
+            y = other(length)
+            ops.append(['reset_values', (y > 0) if rng.random() < 0.12 else y])      # a bool record: 1.0 where set
         elif u < 0.42 and dt <= 0.025 and n >= 100:
             ops.append(['butter_pass', [float(rng.uniform(0.1, 1.0)), float(rng.uniform(5.0, min(15.0, 0.4 / dt)))]])
         elif u < 0.52:
             name = METHODS[int(rng.integers(len(METHODS)))]
             args = {'remove_poly': [int(rng.integers(0, 3))], 'generate_displacement_and_velocity_series': [True]}.get(name, [])
-            ops.append(['method', name, args])
+            if name == 'generate_displacement_and_velocity_series' and rng.random() < 0.8:
+                ops.append(['regen_velocity', FLAG_KINDS[int(rng.integers(len(FLAG_KINDS)))]])
+            else:
+                ops.append(['method', name, args])
         ops.append(['call', pool[int(rng.integers(len(pool)))]] + (['kw'] if rng.random() < 0.3 else []))
     v = np.concatenate([[0.0], np.cumsum(0.5 * dt * (x[1:] + x[:-1]))])
     sg = np.sign(v[v != 0])
@@ -1520,7 +1642,15 @@ def assign_case(rng):
         ops += [['call', k] for k in rng.permutation(pool)[:int(rng.integers(1, len(pool) + 1))].tolist()]
     else:
         ops += [['read', 'fa_spectrum'], ['read', 'smooth_fa_spectrum']]
-    if rng.random() < 0.85:
+    w = rng.random()
+    if w < 0.15:
+        # user-given settings (often outside the band of the data), then every measure on the cold / warm object: a
+        # measure reads, it never tidies what the user set
+        op = attr_op(rng, dt)
+        while op[1] not in ('response_times', 'smooth_fa_freqs', 'smooth_fa_frequencies'):
+            op = attr_op(rng, dt)
+        tag = 'setting'
+    elif w < 0.87:
         op, tag = assign_op(rng, n, pps, amp)
     else:
         op = ['set_attr', 'dt', [dt * 2, dt / 2, dt, np.float64(dt / 2), 1.0 / (2 * pps) if pps else dt * 4][int(rng.integers(5))]]
@@ -1616,6 +1746,8 @@ def quadrature_case(rng, n=None):
         dt = np.float32(dt)
     elif u < 0.13:
         dt = int(rng.choice([1, 2, 5]))
+    elif u < 0.19:
+        dt = new_scalar_form(rng, dt)              # np.int64 / np.bool_ / True / 0-d float64, float32, int64, bool arrays
     return x, dt, cls
 
 
@@ -1730,6 +1862,8 @@ def short_case(rng, c):
         dt = np.float32(dt)
     elif u < 0.22:
         dt = int(rng.choice([1, 2, 5]))
+    elif u < 0.34:
+        dt = new_scalar_form(rng, dt)
     return np.array(x), dt, tag, ckind
 
 
@@ -1782,25 +1916,38 @@ def run_shard(ctx):
     for c in range(n_cavdp + 1):
         x, dt, cls, exact = cavdp_case(rng, long=(c == n_cavdp))
         ckind = 'f64'
-        if not exact and rng.random() < 0.15:
-            ckind = ['f32', 'i16', 'list', 'view', 'readonly'][int(rng.integers(5))]
+        if not exact and rng.random() < 0.17:
+            ckind = ['f32', 'i16', 'list', 'view', 'readonly', 'bool'][int(rng.integers(6))]     # bool: an on/off pulse train of 1 m/s2
+        if c != n_cavdp and (rng.random() < 0.12 or (dt == 1.0 and rng.random() < 0.5)):
+            dt = same_value_form(rng, dt)               # the same step as np.float64 / 0-d array / (np.)float32 / int-like / True
         if ckind == 'i16':
             cont = np.round(x / (G * GATE)).clip(-30000, 30000).astype(np.int16)     # integer m/s2: 0 below, >= 1 above the gate
             xr = cont.astype(float)
         else:
             cont, xr = to_container(rng, x, ckind)
-        ctx.case(core.digest(xr, dt, ckind, 'cavdp'), nontrivial=bool(np.any(xr != 0)), cls='cavdp-%s/%s' % (cls, ckind),
-                 sample={'fn': 'calc_cav_dp', 'n': len(xr), 'dt': dt, 'class': cls, 'exact_g': exact, 'container': ckind,
+        ctx.case(core.digest(xr, float(dt), _dt_kind(dt), ckind, 'cavdp'), nontrivial=bool(np.any(xr != 0)), cls='cavdp-%s/%s' % (cls, ckind),
+                 sample={'fn': 'calc_cav_dp', 'n': len(xr), 'dt': float(dt), 'dt_form': _dt_kind(dt), 'class': cls, 'exact_g': exact, 'container': ckind,
                          'max_g': float(np.max(np.abs(xr)) / G)})
         run_cavdp(ctx, eqsig, cont, dt, exact, kw=(c % 3 == 1), sigcls='Signal' if c % 11 == 5 else 'AccSignal')
+    for c in range(1 if quick else 8):
+        # half-precision step (0.5, 0.25, 0.125, 1 are float16 numbers): outside the scalar forms judged; counted, and
+        # observed as pending-finding when calc_cav_dp raises on it
+        h = np.float16([0.5, 0.25, 0.125, 1.0][(ctx.shard + c) % 4])
+        pps16 = int(round(1.0 / float(h)))
+        x16 = rng.normal(size=int(rng.integers(2, 7)) * pps16 + 1 + int(rng.integers(0, pps16))) * G * GATE * 3.0
+        ctx.observe('cavdp.float16-step-case(not judged)')
+        with attach.paused():
+            _apply(ctx, eqsig, eqsig.AccSignal(x16, h), ['call', 'cavdp'], {})
     # -- same-object histories --------------------------------------------------------------------------------
     for c in range(n_hist):
         x, dt, ops, cls, nsign, sigcls = history_case(rng)
         ckind = 'f64' if rng.random() < 0.8 else ['list', 'view', 'readonly'][int(rng.integers(3))]
         cont, _ = to_container(rng, x, ckind)
-        ctx.case(core.digest(x, dt, repr(core.jsonable(ops)), 'hist'), nontrivial=nsign >= 3,
+        if rng.random() < 0.12:
+            dt = same_value_form(rng, dt)
+        ctx.case(core.digest(x, float(dt), _dt_kind(dt), repr(core.jsonable(ops)), 'hist'), nontrivial=nsign >= 3,
                  cls='history-' + cls + ('' if nsign >= 3 else '(velocity keeps its sign)'),
-                 sample={'fn': 'same-object history', 'n': len(x), 'dt': dt, 'class': cls, 'velocity_sign_changes': nsign,
+                 sample={'fn': 'same-object history', 'n': len(x), 'dt': float(dt), 'dt_form': _dt_kind(dt), 'class': cls, 'velocity_sign_changes': nsign,
                          'signal_class': sigcls,
                          'ops': [op if op[0] != 'reset_values' else ['reset_values', '<array of %d>' % len(op[1])] for op in ops]})
         run_history(ctx, eqsig, cont, dt, ops, sigcls=sigcls, twin=True)
@@ -1809,9 +1956,11 @@ def run_shard(ctx):
         x, dt, ops, cls, sigcls = assign_case(rng)
         ckind = 'f64' if rng.random() < 0.7 else ['list', 'tuple', 'view', 'readonly', 'f32'][int(rng.integers(5))]
         cont, xr = to_container(rng, x, ckind)
-        ctx.case(core.digest(xr, dt, repr(core.jsonable(ops)), 'assign'), nontrivial=bool(np.any(xr != 0)),
+        if rng.random() < 0.12:
+            dt = same_value_form(rng, dt)
+        ctx.case(core.digest(xr, float(dt), _dt_kind(dt), repr(core.jsonable(ops)), 'assign'), nontrivial=bool(np.any(xr != 0)),
                  cls='assign-' + cls.split(':')[1].split('/')[0],
-                 sample={'fn': 'assignment through an attribute name, then every measure', 'n': len(xr), 'dt': dt, 'class': cls,
+                 sample={'fn': 'assignment through an attribute name, then every measure', 'n': len(xr), 'dt': float(dt), 'dt_form': _dt_kind(dt), 'class': cls,
                          'signal_class': sigcls, 'container': ckind,
                          'ops': [op if op[0] not in ('reset_values', 'assign_values', 'add_series', 'add_signal') else
                                  [op[0], op[1] if op[0] == 'assign_values' else '<array>'] for op in ops]})
@@ -1835,7 +1984,9 @@ def run_shard(ctx):
     for c in range(n_twin):
         x, dt, ops, cls, nsign, _ = history_case(rng)
         ops = [op for op in ops if op[0] != 'call' or op[1] != 'cavdp'] + [['method', 'rebase_displacement', []], ['call', 'uke']]
-        ctx.case(core.digest(x, dt, repr(core.jsonable(ops)), 'twin'), nontrivial=bool(np.any(x != 0)), cls='twin-' + cls)
+        if rng.random() < 0.15:
+            dt = same_value_form(rng, dt)          # a 0-d step array is shared by A, B and C like the record is
+        ctx.case(core.digest(x, float(dt), _dt_kind(dt), repr(core.jsonable(ops)), 'twin'), nontrivial=bool(np.any(x != 0)), cls='twin-' + cls)
         twin_case(ctx, eqsig, x, dt, ops)
     for c in range(n_b2b):
         x1, dt, _, cls, _, _ = history_case(rng)
@@ -1845,7 +1996,9 @@ def run_shard(ctx):
         m2 = float(np.max(np.abs(x2)))
         x2 = np.asarray(x2, dtype=float) * ((np.max(np.abs(x1)) or 1.0) / (m2 if m2 > 0 else 1.0))
         keys = QUAD_KEYS + (['cavdp'] if in_dom and len(x1) - 1 >= 2 * pps else [])
-        ctx.case(core.digest(x1, x2, dt, 'b2b'), nontrivial=bool(np.any(x1 != 0) and (len(x1) != len(x2) or np.any(x1 != x2))),
+        if rng.random() < 0.15:
+            dt = same_value_form(rng, dt)
+        ctx.case(core.digest(x1, x2, float(dt), _dt_kind(dt), 'b2b'), nontrivial=bool(np.any(x1 != 0) and (len(x1) != len(x2) or np.any(x1 != x2))),
                  cls='back2back-' + cls + ('' if n2 == len(x1) else '(other shape)'))
         back_to_back(ctx, eqsig, x1, x2, dt, keys, kw=(c % 3 == 0), third=['same', 'fresh'][c % 2])
     for c in range(n_derived):
